@@ -18,6 +18,15 @@ CHECKS = {
             "says nothing outside them.",
             "Trusted: mcv/refcodec.py (own reading of RFC 7252 s.3, self-tested), CPython. Alphabets, not full ranges.",
             "DESIGN.md 6/C01"),
+    "C03": ("model_checking",
+            "stateless deviation-bounded schedule exploration of the real message layer under a virtual clock, stepped against a reference model",
+            "For each source of a CON message (client request, separate response, observe notification), each TransportTuning "
+            "of a grid and each answer of the random seam, every run with <= K injected acknowledgements (matching ACK / RST / "
+            "piggybacked response, wrong-mid and wrong-source ACKs) at every inter-timer position including both sides of a "
+            "tie is executed on the real MessageManager/TokenManager/udp6 stack; copies, byte identity, the exact wire "
+            "timeline, request outcome and left-over state are compared with an RFC 7252 s.4.2 model after every step.",
+            "Trusted: virtual loop (real BaseEventLoop._run_once), fake socket, the small reference model. Bound K=1 quick, K=2 on the default tuning family thorough.",
+            "DESIGN.md 6/C03"),
 }
 
 NOT_YET = {
